@@ -166,7 +166,57 @@ def probe_order(inp: Dict[str, Any]) -> Dict[str, Any]:
             "fields": {"kinds": ["order"] if bad else [], "stub": inp.get("stub", True)}}
 
 
-PROBES = {"conservation": probe_conservation, "reversal": probe_reversal, "order": probe_order}
+def probe_driver_reuse(inp: Dict[str, Any]) -> Dict[str, Any]:
+    """one MD driver object used for a second system of the same padded shape (different species per slot): the second trajectory must be
+    the one a fresh driver produces, and must conserve momentum"""
+    import torch
+
+    import seqm.MolecularDynamics as MD
+    from seqm.Molecule import Molecule
+    from seqm.seqm_functions.constants import Constants
+
+    d = mdh.scratch_dir("c08reuse")
+    old = MD.esdriver
+    try:
+        if inp.get("stub", True):
+            MD.esdriver = mdh.StubEngine
+        sp = dict(method="AM1", scf_eps=1e-10, scf_converger=[1], sp2=[False])
+
+        def system(names):
+            s, x, ch, mu = esh.batch(names)
+            return Molecule(Constants(), sp, torch.as_tensor(x), torch.as_tensor(s)), s
+
+        def driver(tag):
+            out = {"molid": [0, 1], "prefix": os.path.join(d, tag), "print every": 0, "checkpoint every": 0, "xyz": 0, "h5": {"data": 1, "velocities": 1, "coordinates": 1}}
+            return MD.Molecular_Dynamics_Basic(seqm_parameters=sp, timestep=inp["dt"], Temp=300.0, output=out)
+        A, B = inp["first"], inp["second"]
+        md = driver("reused")
+        molA, _ = system(A)
+        with contextlib.redirect_stdout(io.StringIO()):
+            md.run(molA, inp["steps"], seed=5)
+            molB, sB = system(B)
+            md.run(molB, inp["steps"], seed=7)
+            xr, vr = molB.coordinates.detach().numpy().copy(), molB.velocities.detach().numpy().copy()
+            md2 = driver("fresh")
+            molB2, _ = system(B)
+            md2.run(molB2, inp["steps"], seed=7)
+        xf, vf = molB2.coordinates.detach().numpy(), molB2.velocities.detach().numpy()
+        bad = []
+        dx = float(np.abs(xr - xf).max())
+        if dx != 0.0:
+            bad.append(f"second system on a re-used driver deviates from a fresh driver by {dx:.3e} A after {inp['steps']} steps")
+        mass = molB.mass.detach().numpy()[..., 0]
+        P = (mass[..., None] * vr).sum(1)
+        if np.abs(P).max() > 1e-10 * (np.abs(mass[..., None] * vr).max() + 1e-30) * vr.shape[1]:
+            bad.append(f"second system on a re-used driver has net linear momentum {np.abs(P).max():.3e}")
+        return {"ok": not bad, "observed": bad, "expected": "trajectory independent of what the driver ran before; momentum conserved", "predicate": "reused driver == fresh driver (bitwise)",
+                "fields": {"kinds": ["driver_reuse"] if bad else [], "stub": inp.get("stub", True)}}
+    finally:
+        MD.esdriver = old
+        shutil.rmtree(d, ignore_errors=True)
+
+
+PROBES = {"conservation": probe_conservation, "reversal": probe_reversal, "order": probe_order, "driver_reuse": probe_driver_reuse}
 
 
 def corr_step(ctx: Ctx, drv):
@@ -215,7 +265,9 @@ def gen_cases(ctx: Ctx):
     cases.append(("reversal", {"names": ["h2o"], "dt": 0.5, "steps": 30, "stub": True, "seed": int(rng.integers(1, 999))}))
     cases.append(("reversal", {"names": ["h2"], "dt": 0.3, "steps": 6, "stub": False, "seed": 3, "tol": 1e-8}))
     cases.append(("order", {"names": ["h2o"], "dt": 0.4, "time": 6.4, "stub": True, "seed": int(rng.integers(1, 999))}))
+    cases.append(("driver_reuse", {"first": ["ch4", "h2o"], "second": ["h2o", "ch4"], "dt": 0.5, "steps": 8, "stub": True}))
     if ctx.thorough:
+        cases.append(("driver_reuse", {"first": ["nh3", "h2"], "second": ["h2", "nh3"], "dt": 0.4, "steps": 4, "stub": False}))
         cases.append(("order", {"names": ["h2"], "dt": 0.4, "time": 3.2, "stub": False, "seed": 4}))
         cases.append(("conservation", {"names": ["nh3"], "dt": 0.3, "steps": 10, "stub": False, "seed": 9, "method": "PM3"}))
         cases.append(("conservation", {"names": ["ch2o", "h2"], "dt": 0.25, "steps": 8, "stub": False, "seed": 11, "method": "MNDO"}))
